@@ -185,6 +185,6 @@ def main(argv):
         trusted_base=['modelled, not verified: Model/Blocks.v is a hand-written restatement of desugar_blocks.rs (three passes fused), of the time pass and of AstVm::_run (src/vm.rs) for nested and for flat code; Model/BlocksInst.v of AstVm::eval on integers',
                       'the flat interpreter is given as a suffix semantics (position = remaining statement list, goto = first label of that name with the time recorded for it); statement times are threaded through the program in document order instead of being looked up by NodeId'],
         assumptions=['forward direction only: every terminating, non-panicking guarded run of the nested program is reproduced; preservation of divergence is stated (C06_preserves_divergence) but not proved',
-                     'guards (each shown necessary by a kernel-checked counterexample, each reproduced on AstVm by the correspondence): no `times` count < 0 without a named counter; under the `--c > 0` flavour the named counter never drops below 0 at the decrement; AstVm never assigns `time` a value different from the current one when entering the first block of a chain / leaving the last one / starting the first iteration of `times` (true whenever time labels do not decrease and the run starts at time <= 0)',
+                     'guards (each shown necessary by a kernel-checked counterexample, each reproduced on AstVm by the correspondence): no `times` count < 0 without a named counter; under the `--c > 0` flavour the named counter never drops below 0 at the decrement; and, for vm.rs as found, AstVm never assigns `time` a value different from the current one when entering the first block of a chain / leaving the last one / starting the first iteration of `times` -- proved to hold whenever time labels do not decrease and the run starts at time <= 0 (C06_monotone_no_time_reset), and not needed at all for vm.rs with fixes/c06-astvm-time-reset.diff (C06_desugar_correct with tg = false; the translator reads out of vm.rs which variant it is)',
                      'user-written goto into or out of blocks, `return`, difficulty labels, sub calls and float/string values are outside the model (AstVm cannot execute the first; the others do not interact with block structure)',
                      'the expression language and the simple statements are a parameter of the theorem (three laws); the correspondence instantiates it with integer expressions incl. pre-decrement'])
